@@ -15,10 +15,10 @@ import NeumannModel.RelTx.Lemmas
 namespace Neumann.RelTx
 
 /-- the slot `(c, i)` of `es` holds exactly the key `o` (or nothing) -/
-def slotIs (es : List Entry) (c i : Nat) (o : Option Int) : Prop := ∀ v, (c, v, i) ∈ es ↔ o = some v
+def slotIs (es : List Entry) (c i : Nat) (o : Option Val) : Prop := ∀ v, (c, v, i) ∈ es ↔ o = some v
 
 /-- what the slot `(c, i)` of an index over the columns `on` must hold -/
-def want (rows : List Row) (on : List Nat) (c i : Nat) : Option Int :=
+def want (rows : List Row) (on : List Nat) (c i : Nat) : Option Val :=
   if c ∈ on then
     match rows[i]? with
     | some r => if r.alive then some (val r.vals c) else none
@@ -32,7 +32,7 @@ def IdxExact (T : Table) : Prop :=
   ExactOn T.rows T.hashOn T.hashE ∧ ExactOn T.rows T.btreeOn T.btreeE
 
 /-- the `index_changes` list `tx_update` records for a row with values `old` -/
-def mkChg (on : List Nat) (upd : List (Nat × Int)) (old : List Int) : List (Nat × Int × Int) :=
+def mkChg (on : List Nat) (upd : List (Nat × Val)) (old : List Val) : List (Nat × Val × Val) :=
   on.filterMap fun c => match updGet upd c with | some n => some (c, val old c, n) | none => none
 
 /-- what the undo of entry `u` expects of the row `r` it names (`on` = the indexed columns, hash
@@ -45,13 +45,13 @@ def undoPre (ncols : Nat) (on : List Nat) (u : Undo) (r : Row) : Prop :=
   | .deleted _ _ old idx => r.alive = false ∧ old.length = ncols ∧ idx = on.map (fun c => (c, val old c))
 
 /-- the table `tx_insert` leaves -/
-def insertT (T : Table) (vals : List Int) : Table :=
+def insertT (T : Table) (vals : List Val) : Table :=
   { T with rows := T.rows ++ [{ alive := true, vals := vals }]
            hashE := T.hashOn.foldl (fun es c => idxAdd (c, val vals c, T.rows.length) es) T.hashE
            btreeE := T.btreeOn.foldl (fun es c => idxAdd (c, val vals c, T.rows.length) es) T.btreeE }
 
 /-- the table the per-row body of `tx_update` leaves -/
-def updateT (T : Table) (i : Nat) (r : Row) (upd : List (Nat × Int)) : Table :=
+def updateT (T : Table) (i : Nat) (r : Row) (upd : List (Nat × Val)) : Table :=
   let step := fun (es : List Entry) (c : Nat) =>
     match updGet upd c with
     | some n => idxAdd (c, n, i) (idxRemove (c, val r.vals c, i) es)
@@ -116,7 +116,7 @@ theorem mem_idxDropCol {x : Entry} {c : Nat} {es : List Entry} : x ∈ idxDropCo
 
 /-! ### slots -/
 
-theorem slot_add {es : List Entry} {c i : Nat} {o : Option Int} {v : Int}
+theorem slot_add {es : List Entry} {c i : Nat} {o : Option Val} {v : Val}
     (h : slotIs es c i o) (ho : o = none ∨ o = some v) : slotIs (idxAdd (c, v, i) es) c i (some v) := by
   intro w
   rw [mem_idxAdd, h w]
@@ -132,7 +132,7 @@ theorem slot_add {es : List Entry} {c i : Nat} {o : Option Int} {v : Int}
     simp only [Option.some.injEq] at h1
     rw [h1]
 
-theorem slot_remove_self {es : List Entry} {c i : Nat} {o : Option Int} {v : Int}
+theorem slot_remove_self {es : List Entry} {c i : Nat} {o : Option Val} {v : Val}
     (h : slotIs es c i o) (ho : o = none ∨ o = some v) : slotIs (idxRemove (c, v, i) es) c i none := by
   intro w
   rw [mem_idxRemove, h w]
@@ -146,7 +146,7 @@ theorem slot_remove_self {es : List Entry} {c i : Nat} {o : Option Int} {v : Int
       exact absurd rfl h2
   · intro h1; cases h1
 
-theorem slot_remove_ne {es : List Entry} {c i : Nat} {v w : Int}
+theorem slot_remove_ne {es : List Entry} {c i : Nat} {v w : Val}
     (h : slotIs es c i (some w)) (hne : w ≠ v) : slotIs (idxRemove (c, v, i) es) c i (some w) := by
   intro u
   rw [mem_idxRemove, h u]
@@ -161,7 +161,7 @@ theorem slot_remove_ne {es : List Entry} {c i : Nat} {v w : Int}
     exact hne h2
 
 /-- `index_remove old; index_add new` on a slot that holds `old` or `new` -/
-theorem slot_swap {es : List Entry} {c i : Nat} {o : Option Int} {a b : Int}
+theorem slot_swap {es : List Entry} {c i : Nat} {o : Option Val} {a b : Val}
     (h : slotIs es c i o) (ho : o = some a ∨ o = some b) :
     slotIs (idxAdd (c, b, i) (idxRemove (c, a, i) es)) c i (some b) := by
   rcases ho with ho | ho
@@ -173,7 +173,7 @@ theorem slot_swap {es : List Entry} {c i : Nat} {o : Option Int} {a b : Int}
       exact slot_add (slot_remove_self h (Or.inr rfl)) (Or.inl rfl)
     · exact slot_add (slot_remove_ne h hab) (Or.inr rfl)
 
-theorem add_other {es : List Entry} {c c' i i' : Nat} {v v' : Int} (hne : ¬(c' = c ∧ i' = i)) :
+theorem add_other {es : List Entry} {c c' i i' : Nat} {v v' : Val} (hne : ¬(c' = c ∧ i' = i)) :
     (c', v', i') ∈ idxAdd (c, v, i) es ↔ (c', v', i') ∈ es := by
   rw [mem_idxAdd]
   constructor
@@ -183,7 +183,7 @@ theorem add_other {es : List Entry} {c c' i i' : Nat} {v v' : Int} (hne : ¬(c' 
     · exact h
   · intro h; exact Or.inr h
 
-theorem remove_other {es : List Entry} {c c' i i' : Nat} {v v' : Int} (hne : ¬(c' = c ∧ i' = i)) :
+theorem remove_other {es : List Entry} {c c' i i' : Nat} {v v' : Val} (hne : ¬(c' = c ∧ i' = i)) :
     (c', v', i') ∈ idxRemove (c, v, i) es ↔ (c', v', i') ∈ es := by
   rw [mem_idxRemove]
   constructor
@@ -215,7 +215,7 @@ theorem fold_untouched {α : Type} (g : List Entry → α → List Entry) (items
     exact hO a List.mem_cons_self es
 
 theorem fold_slot {α : Type} (g : List Entry → α → List Entry) (c i : Nat) (hits : α → Prop)
-    (s d : Option Int) (items : List α) (es : List Entry) (o : Option Int)
+    (s d : Option Val) (items : List α) (es : List Entry) (o : Option Val)
     (hO : ∀ a ∈ items, ¬ hits a → ∀ es v, (c, v, i) ∈ g es a ↔ (c, v, i) ∈ es)
     (hS : ∀ a ∈ items, hits a → ∀ es o, slotIs es c i o → (o = s ∨ o = d) → slotIs (g es a) c i d)
     (h : slotIs es c i o) (ho : o = d ∨ (o = s ∧ ∃ a ∈ items, hits a)) :
@@ -253,7 +253,7 @@ theorem fold_slot {α : Type} (g : List Entry → α → List Entry) (c i : Nat)
 
 /-- the general preservation scheme: a fold of slot-local steps takes an exact index to an exact index -/
 theorem exactOn_fold {α : Type} (g : List Entry → α → List Entry) (hits : α → Nat → Nat → Prop)
-    (src dst : Nat → Nat → Option Int) (items : List α)
+    (src dst : Nat → Nat → Option Val) (items : List α)
     (rows rows' : List Row) (on on' : List Nat) (es : List Entry)
     (hN : ∀ a ∈ items, ∀ es, es.Nodup → (g es a).Nodup)
     (hO : ∀ a ∈ items, ∀ c i, ¬ hits a c i → ∀ es v, (c, v, i) ∈ g es a ↔ (c, v, i) ∈ es)
@@ -311,7 +311,7 @@ theorem set_ne {rows : List Row} {i j : Nat} {x : Row} (hne : j ≠ i) : (rows.s
 
 /-! ### `applyUpd` -/
 
-theorem getElem?_applyUpdFrom (upd : List (Nat × Int)) (k : Nat) (vals : List Int) (j : Nat) :
+theorem getElem?_applyUpdFrom (upd : List (Nat × Val)) (k : Nat) (vals : List Val) (j : Nat) :
     (applyUpdFrom upd k vals)[j]? =
       vals[j]?.map (fun v => match updGet upd (k + j) with | some n => n | none => v) := by
   induction vals generalizing k j with
@@ -325,19 +325,19 @@ theorem getElem?_applyUpdFrom (upd : List (Nat × Int)) (k : Nat) (vals : List I
       have : k + 1 + j = k + (j + 1) := by omega
       rw [this]
 
-theorem val_applyUpd_some {upd : List (Nat × Int)} {vals : List Int} {c : Nat} {n : Int}
+theorem val_applyUpd_some {upd : List (Nat × Val)} {vals : List Val} {c : Nat} {n : Val}
     (h : updGet upd c = some n) (hc : c < vals.length) : val (applyUpd upd vals) c = n := by
   unfold val applyUpd
   rw [List.getD_eq_getElem?_getD, getElem?_applyUpdFrom, Nat.zero_add, h, List.getElem?_eq_getElem hc]
   rfl
 
-theorem val_applyUpd_none {upd : List (Nat × Int)} {vals : List Int} {c : Nat}
+theorem val_applyUpd_none {upd : List (Nat × Val)} {vals : List Val} {c : Nat}
     (h : updGet upd c = none) : val (applyUpd upd vals) c = val vals c := by
   unfold val applyUpd
   rw [List.getD_eq_getElem?_getD, List.getD_eq_getElem?_getD, getElem?_applyUpdFrom, Nat.zero_add, h]
   cases vals[c]? <;> rfl
 
-theorem updGet_some_mem {upd : List (Nat × Int)} {c : Nat} {n : Int} (h : updGet upd c = some n) :
+theorem updGet_some_mem {upd : List (Nat × Val)} {c : Nat} {n : Val} (h : updGet upd c = some n) :
     (c, n) ∈ upd := by
   induction upd with
   | nil => rw [updGet] at h; cases h
@@ -353,7 +353,7 @@ theorem updGet_some_mem {upd : List (Nat × Int)} {c : Nat} {n : Int} (h : updGe
 
 /-! ### the statements, one index at a time -/
 
-theorem exactOn_insert {rows : List Row} {on : List Nat} {es : List Entry} (vals : List Int)
+theorem exactOn_insert {rows : List Row} {on : List Nat} {es : List Entry} (vals : List Val)
     (h : ExactOn rows on es) :
     ExactOn (rows ++ [{ alive := true, vals := vals }]) on
       (on.foldl (fun es c => idxAdd (c, val vals c, rows.length) es) es) := by
@@ -410,7 +410,7 @@ theorem exactOn_delete {rows : List Row} {on : List Nat} {es : List Entry} {i0 :
     · rw [want_notin hc, want_notin hc]
 
 theorem exactOn_update {rows : List Row} {on : List Nat} {es : List Entry} {i0 : Nat} {r : Row}
-    (upd : List (Nat × Int)) (hr : rows[i0]? = some r) (ha : r.alive = true)
+    (upd : List (Nat × Val)) (hr : rows[i0]? = some r) (ha : r.alive = true)
     (hupd : ∀ p ∈ upd, p.1 < r.vals.length) (h : ExactOn rows on es) :
     ExactOn (rows.set i0 { r with vals := applyUpd upd r.vals }) on
       (on.foldl (fun (es : List Entry) (c : Nat) =>
@@ -465,7 +465,7 @@ theorem exactOn_update {rows : List Row} {on : List Nat} {es : List Entry} {i0 :
       · exact want_congr (set_ne hi)
     · rw [want_notin hc, want_notin hc]
 
-theorem mem_mkChg {on : List Nat} {upd : List (Nat × Int)} {old : List Int} {p : Nat × Int × Int} :
+theorem mem_mkChg {on : List Nat} {upd : List (Nat × Val)} {old : List Val} {p : Nat × Val × Val} :
     p ∈ mkChg on upd old ↔ ∃ c ∈ on, ∃ n, updGet upd c = some n ∧ p = (c, val old c, n) := by
   unfold mkChg
   rw [List.mem_filterMap]
@@ -484,9 +484,9 @@ theorem exactOn_undoInserted {rows rows' : List Row} {on all : List Nat} {es : L
     (hr : rows[i0]? = some r) (hself : rows'[i0]? = some { r with alive := false })
     (hother : ∀ i, i ≠ i0 → rows'[i]? = rows[i]?) (hsub : ∀ c ∈ on, c ∈ all) (h : ExactOn rows on es) :
     ExactOn rows' on
-      ((all.map fun c => (c, val r.vals c)).foldl (fun es (p : Nat × Int) => idxRemove (p.1, p.2, i0) es) es) := by
+      ((all.map fun c => (c, val r.vals c)).foldl (fun es (p : Nat × Val) => idxRemove (p.1, p.2, i0) es) es) := by
   apply exactOn_fold _
-    (fun (p : Nat × Int) c i => p.1 = c ∧ i = i0) (fun c _ => some (val r.vals c)) (fun _ _ => none)
+    (fun (p : Nat × Val) c i => p.1 = c ∧ i = i0) (fun c _ => some (val r.vals c)) (fun _ _ => none)
     _ rows rows' on on es _ _ _ _ _ h
   · intro a _ es hes; exact nodup_idxRemove hes
   · intro a _ c i hh es v; exact remove_other (fun ⟨h1, h2⟩ => hh ⟨h1.symm, h2⟩)
@@ -511,13 +511,13 @@ theorem exactOn_undoInserted {rows rows' : List Row} {on all : List Nat} {es : L
     · rw [want_notin hc, want_notin hc]
 
 theorem exactOn_undoUpdated {rows rows' : List Row} {on all : List Nat} {es : List Entry} {i0 : Nat} {r : Row}
-    {old : List Int} (upd : List (Nat × Int))
+    {old : List Val} (upd : List (Nat × Val))
     (hr : rows[i0]? = some r) (ha : r.alive = true) (hself : rows'[i0]? = some { r with vals := old })
     (hother : ∀ i, i ≠ i0 → rows'[i]? = rows[i]?) (hsub : ∀ c ∈ on, c ∈ all)
     (hupd : ∀ p ∈ upd, p.1 < old.length) (hvals : r.vals = applyUpd upd old) (h : ExactOn rows on es) :
     ExactOn rows' on ((mkChg all upd old).foldl (undoChange on i0) es) := by
   apply exactOn_fold _
-    (fun (p : Nat × Int × Int) c i => p.1 = c ∧ i = i0 ∧ c ∈ on) (fun c _ => some (val r.vals c))
+    (fun (p : Nat × Val × Val) c i => p.1 = c ∧ i = i0 ∧ c ∈ on) (fun c _ => some (val r.vals c))
     (fun c _ => some (val old c))
     _ rows rows' on on es _ _ _ _ _ h
   · intro p _ es hes
@@ -564,12 +564,12 @@ theorem exactOn_undoUpdated {rows rows' : List Row} {on all : List Nat} {es : Li
     · rw [want_notin hc, want_notin hc]
 
 theorem exactOn_undoDeleted {rows rows' : List Row} {on all : List Nat} {es : List Entry} {i0 : Nat} {r : Row}
-    {old : List Int}
+    {old : List Val}
     (hr : rows[i0]? = some r) (ha : r.alive = false) (hself : rows'[i0]? = some { alive := true, vals := old })
     (hother : ∀ i, i ≠ i0 → rows'[i]? = rows[i]?) (hsub : ∀ c ∈ on, c ∈ all) (h : ExactOn rows on es) :
     ExactOn rows' on ((all.map fun c => (c, val old c)).foldl (undoReadd on i0) es) := by
   apply exactOn_fold _
-    (fun (p : Nat × Int) c i => p.1 = c ∧ i = i0 ∧ c ∈ on) (fun _ _ => none)
+    (fun (p : Nat × Val) c i => p.1 = c ∧ i = i0 ∧ c ∈ on) (fun _ _ => none)
     (fun c _ => some (val old c))
     _ rows rows' on on es _ _ _ _ _ h
   · intro p _ es hes
@@ -709,7 +709,7 @@ theorem indexAnswer_eq_scan (T : Table) (cond : Cond) (cands : List Nat)
   exact flatMap_eq_filterMap T cands _ h
 
 theorem count_cands {rows : List Row} {on : List Nat} {es : List Entry} (h : ExactOn rows on es)
-    {c i : Nat} {r : Row} {x : Int} (p : Int → Bool) (hc : c ∈ on) (hr : rows[i]? = some r)
+    {c i : Nat} {r : Row} {x : Val} (p : Val → Bool) (hc : c ∈ on) (hr : rows[i]? = some r)
     (ha : r.alive = true) (hx : r.vals[c]? = some x) (hp : p x = true) :
     ((es.filter fun e => e.1 == c && p e.2.1).map (·.2.2)).count i = 1 := by
   have hval : val r.vals c = x := by
@@ -760,7 +760,7 @@ theorem slabDelete_other {T : Table} {i j : Nat} (hne : j ≠ i) : (slabDelete T
     · rfl
   · rfl
 
-theorem evalCond_pred {c : Nat} {vals : List Int} {p : Int → Bool}
+theorem evalCond_pred {c : Nat} {vals : List Val} {p : Val → Bool}
     (h : (match vals[c]? with | some x => p x | none => false) = true) :
     ∃ x, vals[c]? = some x ∧ p x = true := by
   cases hx : vals[c]? with
@@ -769,8 +769,8 @@ theorem evalCond_pred {c : Nat} {vals : List Int} {p : Int → Bool}
 
 /-! ## the theorems -/
 
-theorem idxExact_empty (n : Nat) :
-    IdxExact { ncols := n, rows := [], hashOn := [], btreeOn := [], hashE := [], btreeE := [] } := by
+theorem idxExact_empty (n : Nat) (nl : List Nat) :
+    IdxExact { ncols := n, nullable := nl, rows := [], hashOn := [], btreeOn := [], hashE := [], btreeE := [] } := by
   have h : ExactOn [] [] [] := by
     refine ⟨List.nodup_nil, ?_⟩
     intro c i v
@@ -780,10 +780,10 @@ theorem idxExact_empty (n : Nat) :
     · intro h; cases h
   exact ⟨h, h⟩
 
-theorem idxExact_insertT (T : Table) (vals : List Int) (h : IdxExact T) : IdxExact (insertT T vals) :=
+theorem idxExact_insertT (T : Table) (vals : List Val) (h : IdxExact T) : IdxExact (insertT T vals) :=
   ⟨exactOn_insert vals h.1, exactOn_insert vals h.2⟩
 
-theorem idxExact_updateT (T : Table) (i : Nat) (r : Row) (upd : List (Nat × Int)) (h : IdxExact T)
+theorem idxExact_updateT (T : Table) (i : Nat) (r : Row) (upd : List (Nat × Val)) (h : IdxExact T)
     (hr : T.rows[i]? = some r) (ha : r.alive = true) (hlen : r.vals.length = T.ncols)
     (hupd : ∀ p ∈ upd, p.1 < T.ncols) : IdxExact (updateT T i r upd) := by
   have hupd' : ∀ p ∈ upd, p.1 < r.vals.length := by rw [hlen]; exact hupd
@@ -852,22 +852,30 @@ theorem idxExact_dropBtree (T : Table) (c : Nat) (h : IdxExact T) :
     IdxExact { T with btreeOn := T.btreeOn.filter (· ≠ c), btreeE := idxDropCol c T.btreeE } :=
   ⟨h.1, exactOn_dropCol c h.2⟩
 
+/-- a comparison that holds (both sides non-null) holds in the order of the b-tree keys, so the row's
+    key lies in the range the lookup scans -/
+theorem Val.keyLt_of_lt {a b : Val} (h : Val.lt a b = true) : Val.keyLt a b = true := by
+  cases a <;> cases b <;> simp_all [Val.lt, Val.keyLt]
+
+theorem Val.keyLe_of_le {a b : Val} (h : Val.le a b = true) : Val.keyLe a b = true := by
+  cases a <;> cases b <;> simp_all [Val.le, Val.keyLe, Val.keyLt]
+
 /-- with exact indexes, every live row satisfying a condition that an index serves occurs exactly
     once among the candidates `try_index_lookup` returns — also for `And(a, b)`, whose candidates are
     those of whichever side is served first -/
 theorem candidates_count (T : Table) (h : IdxExact T) (cond : Cond) :
     ∀ cands, candidates T cond = some cands → ∀ i r, T.rows[i]? = some r → r.alive = true →
       evalCond cond i r.vals = true → cands.count i = 1 := by
-  have bt : ∀ (c : Nat) (p : Int → Bool) (cands : List Nat), btCands T c p = some cands →
-      ∀ i r, T.rows[i]? = some r → r.alive = true →
-      (match r.vals[c]? with | some x => p x | none => false) = true → cands.count i = 1 := by
-    intro c p cands hc i r hr ha he
+  have bt : ∀ (c : Nat) (q p : Val → Bool) (cands : List Nat), (∀ x, q x = true → p x = true) →
+      btCands T c p = some cands → ∀ i r, T.rows[i]? = some r → r.alive = true →
+      (match r.vals[c]? with | some x => q x | none => false) = true → cands.count i = 1 := by
+    intro c q p cands hqp hc i r hr ha he
     unfold btCands at hc
     split at hc
     · rename_i hon
       cases hc
-      obtain ⟨x, hx, hp⟩ := evalCond_pred he
-      exact count_cands h.2 p hon hr ha hx hp
+      obtain ⟨x, hx, hq⟩ := evalCond_pred he
+      exact count_cands h.2 p hon hr ha hx (hqp x hq)
     · cases hc
   induction cond with
   | all => intro cands hc; cases hc
@@ -883,10 +891,10 @@ theorem candidates_count (T : Table) (h : IdxExact T) (cond : Cond) :
       obtain ⟨x, hx, hp⟩ := evalCond_pred (p := fun k => k == v) he
       exact count_cands h.1 (fun k => k == v) hon hr ha hx hp
     · cases hc
-  | lt c v => intro cands hc i r hr ha he; exact bt c _ cands hc i r hr ha he
-  | le c v => intro cands hc i r hr ha he; exact bt c _ cands hc i r hr ha he
-  | gt c v => intro cands hc i r hr ha he; exact bt c _ cands hc i r hr ha he
-  | ge c v => intro cands hc i r hr ha he; exact bt c _ cands hc i r hr ha he
+  | lt c v => intro cands hc i r hr ha he; exact bt c (fun x => Val.lt x v) _ cands (fun x => Val.keyLt_of_lt) hc i r hr ha he
+  | le c v => intro cands hc i r hr ha he; exact bt c (fun x => Val.le x v) _ cands (fun x => Val.keyLe_of_le) hc i r hr ha he
+  | gt c v => intro cands hc i r hr ha he; exact bt c (fun x => Val.lt v x) _ cands (fun x => Val.keyLt_of_lt) hc i r hr ha he
+  | ge c v => intro cands hc i r hr ha he; exact bt c (fun x => Val.le v x) _ cands (fun x => Val.keyLe_of_le) hc i r hr ha he
   | and a b iha ihb =>
     intro cands hc i r hr ha he
     have he' : evalCond a i r.vals = true ∧ evalCond b i r.vals = true := by
